@@ -1,18 +1,171 @@
-(* XtermProofs.v -- C09: lemmas about the driver model against the VT specification. *)
-From Coq Require Import ZArith List Bool Lia.
-From Tickit Require Import Csi VT TermPenDefs XtermDefs XtermSpec.
+(* XtermProofs.v -- C09: the driver model against the VT specification, request by request
+   and for sequences. *)
+From Coq Require Import ZArith List Bool Lia ZifyBool.
+From Tickit Require Import Csi VT TermPenDefs TermPenSpec XtermDefs XtermSpec.
 Import ListNotations.
 Local Open Scope Z_scope.
 
-(* a scroll that reports failure writes nothing *)
-Lemma scrollrect_fail_silent : forall slrm term_cols r d rt ts,
-  xt_scrollrect slrm term_cols r d rt = (false, ts) -> ts = [].
+(* ------------------------------------------------------------------ basics *)
+Lemma vt_run_app : forall a b v, vt_run (a ++ b) v = vt_run b (vt_run a v).
+Proof. intros a b v. unfold vt_run. apply fold_left_app. Qed.
+Lemma vt_run_nil : forall v, vt_run [] v = v.
+Proof. reflexivity. Qed.
+Lemma vt_run_cons : forall t ts v, vt_run (t :: ts) v = vt_run ts (vt_step v t).
+Proof. reflexivity. Qed.
+
+Lemma colour_eqb_refl : forall c, colour_eqb c c = true.
+Proof. intros [|n|r g b]; cbn; lia. Qed.
+Lemma attrs_eqb_refl : forall a, attrs_eqb a a = true.
 Proof.
-  intros slrm term_cols r d rt ts H. unfold xt_scrollrect in H.
-  destruct ((d =? 0) && (rt =? 0)); [discriminate|].
-  destruct (((slrm && (r_lines r =? 1)) || (r_right r =? term_cols)) && (d =? 0)); [discriminate|].
-  destruct (slrm || ((r_left r =? 0) && (r_cols r =? term_cols) && (rt =? 0))).
-  - destruct (((0 <? r_left r) || (r_right r <? term_cols)) && (r_cols r <? 2)); [|discriminate].
-    now inversion H.
-  - now inversion H.
+  intros a. unfold attrs_eqb. rewrite !colour_eqb_refl, !Z.eqb_refl, !eqb_reflx. reflexivity.
+Qed.
+Lemma cell_eqb_refl : forall c, cell_eqb c c = true.
+Proof. intros c. unfold cell_eqb. rewrite Z.eqb_refl, attrs_eqb_refl. reflexivity. Qed.
+Lemma margins_eqb_refl : forall m, margins_eqb m m = true.
+Proof. intros m. unfold margins_eqb. rewrite !Z.eqb_refl. reflexivity. Qed.
+Lemma modes_eqb_refl : forall m, modes_eqb m m = true.
+Proof. intros m. unfold modes_eqb. rewrite !Z.eqb_refl, !eqb_reflx. reflexivity. Qed.
+Lemma cursor_eqb_refl : forall c, cursor_eqb c c = true.
+Proof. intros c. unfold cursor_eqb. rewrite !Z.eqb_refl, eqb_reflx. reflexivity. Qed.
+
+Lemma clamp_id : forall lo hi x, lo <= x <= hi -> clamp lo hi x = x.
+Proof. intros lo hi x H. unfold clamp. lia. Qed.
+
+(* what [vt_ok] says *)
+Lemma vt_ok_inv : forall v, vt_ok v ->
+  0 < v_lines v /\ 0 < v_cols v /\
+  mg_top (v_mg v) = 0 /\ mg_bot (v_mg v) = v_lines v - 1 /\
+  mg_left (v_mg v) = 0 /\ mg_right (v_mg v) = v_cols v - 1 /\
+  md_awm (v_md v) = true /\ 0 <= row v < v_lines v /\ 0 <= col v < v_cols v.
+Proof.
+  intros v H. unfold vt_ok, vt_okb, margins_eqb, full_margins in H. cbn [mg_top mg_bot mg_left mg_right] in H.
+  destruct (md_awm (v_md v)); lia.
+Qed.
+Lemma vt_ok_intro : forall v,
+  0 < v_lines v -> 0 < v_cols v ->
+  v_mg v = full_margins (v_lines v) (v_cols v) ->
+  md_awm (v_md v) = true -> 0 <= row v < v_lines v -> 0 <= col v < v_cols v -> vt_ok v.
+Proof.
+  intros v Hl Hc Hm Ha Hr Hcc. unfold vt_ok, vt_okb. rewrite Hm, margins_eqb_refl, Ha. lia.
+Qed.
+Lemma full_margins_of_ok : forall v, vt_ok v -> v_mg v = full_margins (v_lines v) (v_cols v).
+Proof.
+  intros v H. destruct (vt_ok_inv v H) as (_ & _ & Ht & Hb & Hl & Hr & _).
+  unfold full_margins. destruct (v_mg v) as [t b l r]. cbn in *. congruence.
+Qed.
+
+(* bounded quantification *)
+Lemma seqZ_In : forall n s z, In z (seqZ s n) <-> s <= z < s + Z.of_nat n.
+Proof.
+  induction n as [|n IH]; intros s z.
+  - cbn. lia.
+  - cbn [seqZ In]. rewrite IH. lia.
+Qed.
+Lemma forall_cells_spec : forall L C f,
+  forall_cells L C f = true <-> (forall y x, 0 <= y < L -> 0 <= x < C -> f y x = true).
+Proof.
+  intros L C f. unfold forall_cells. rewrite forallb_forall. split.
+  - intros H y x Hy Hx.
+    assert (Hin : In y (seqZ 0 (Z.to_nat L))) by (apply seqZ_In; lia).
+    specialize (H y Hin). rewrite forallb_forall in H. apply H. apply seqZ_In. lia.
+  - intros H y Hy. apply seqZ_In in Hy. rewrite forallb_forall. intros x Hx. apply seqZ_In in Hx.
+    apply H; lia.
+Qed.
+
+(* the boolean checker of the oracle decides the proposition the theorems are about *)
+Lemma effect_okb_spec : forall q ret silent v v',
+  effect_okb q ret silent v v' = true <-> effect_ok q ret silent v v'.
+Proof.
+  intros q ret silent v v'. unfold effect_okb, effect_ok.
+  destruct q; destruct ret;
+    rewrite ?andb_true_iff, ?forall_cells_spec; try tauto;
+    (split; [intros [[[H1 H2] H3] H4] | intros (H1 & H2 & H3 & H4)]; repeat split; auto).
+Qed.
+
+(* ------------------------------------------------------------------ single tokens *)
+Ltac vt_unfold :=
+  unfold row, col, pend, goto_rc, clear_pend, set_cur, set_grid, set_mg, set_sgr, set_md in *;
+  cbn [v_lines v_cols v_grid v_cur v_mg v_sgr v_md v_savedcur v_other cu_row cu_col cu_pend] in *.
+
+Lemma run_cup2 : forall v a b, vt_run [csi [[Some a]; [Some b]] 72] v = vt_cup v (if a =? 0 then 1 else a) (if b =? 0 then 1 else b).
+Proof. reflexivity. Qed.
+Lemma run_cup1 : forall v a, vt_run [csi_n a 72] v = vt_cup v (if a =? 0 then 1 else a) 1.
+Proof. reflexivity. Qed.
+Lemma run_vpa : forall v a, vt_run [csi_n a 100] v = vt_vpa v (if a =? 0 then 1 else a).
+Proof. reflexivity. Qed.
+Lemma run_cha : forall v a, vt_run [csi_n a 71] v = vt_cha v (if a =? 0 then 1 else a).
+Proof. reflexivity. Qed.
+Lemma run_cha0 : forall v, vt_run [csi_0 71] v = vt_cha v 1.
+Proof. reflexivity. Qed.
+Lemma run_cuu : forall v a, vt_run [csi_n a 65] v = vt_cuu v (if a =? 0 then 1 else a).
+Proof. reflexivity. Qed.
+Lemma run_cuu0 : forall v, vt_run [csi_0 65] v = vt_cuu v 1.
+Proof. reflexivity. Qed.
+Lemma run_cud : forall v a, vt_run [csi_n a 66] v = vt_cud v (if a =? 0 then 1 else a).
+Proof. reflexivity. Qed.
+Lemma run_cud0 : forall v, vt_run [csi_0 66] v = vt_cud v 1.
+Proof. reflexivity. Qed.
+Lemma run_cuf : forall v a, vt_run [csi_n a 67] v = vt_cuf v (if a =? 0 then 1 else a).
+Proof. reflexivity. Qed.
+Lemma run_cuf0 : forall v, vt_run [csi_0 67] v = vt_cuf v 1.
+Proof. reflexivity. Qed.
+Lemma run_cub : forall v a, vt_run [csi_n a 68] v = vt_cub v (if a =? 0 then 1 else a).
+Proof. reflexivity. Qed.
+Lemma run_cub0 : forall v, vt_run [csi_0 68] v = vt_cub v 1.
+Proof. reflexivity. Qed.
+
+(* ------------------------------------------------------------------ goto_abs *)
+(* the screen after a goto: only the cursor changes *)
+Lemma goto_abs_run : forall v l c, vt_ok v -> in_range (RGoto l c) v ->
+  vt_run (xt_goto_abs l c) v =
+  if (l =? -1) && (c =? -1) then v
+  else set_cur v (mkCursor (if l =? -1 then row v else l) (if c =? -1 then col v else c) false).
+Proof.
+  intros v l c Hok Hr.
+  destruct (vt_ok_inv v Hok) as (HL & HC & _ & _ & _ & _ & _ & Hrow & Hcol).
+  unfold in_range, in_rangeb in Hr. unfold xt_goto_abs.
+  destruct (l =? -1) eqn:El; destruct (0 <? c) eqn:Ec; cbn [negb andb].
+  - (* CHA n *) rewrite run_cha. assert (Hc1 : (c =? -1) = false) by lia; rewrite Hc1. cbn [andb].
+    unfold vt_cha, goto_rc. destruct (c + 1 =? 0) eqn:E; [lia|].
+    rewrite clamp_id by lia. f_equal. f_equal. lia.
+  - destruct (c =? -1) eqn:Ec1; cbn [negb andb].
+    + reflexivity.
+    + rewrite run_cha0. unfold vt_cha, goto_rc. rewrite clamp_id by lia. f_equal. f_equal. lia.
+  - (* CUP l;c *) rewrite run_cup2. assert (Hc1 : (c =? -1) = false) by lia; rewrite Hc1.
+    unfold vt_cup, goto_rc. destruct (l + 1 =? 0) eqn:E1; [lia|]. destruct (c + 1 =? 0) eqn:E2; [lia|].
+    rewrite !clamp_id by lia. f_equal. f_equal; lia.
+  - destruct (c =? 0) eqn:Ec0; cbn [negb andb].
+    + (* CUP l *) rewrite run_cup1. assert (Hc1 : (c =? -1) = false) by lia; rewrite Hc1.
+      unfold vt_cup, goto_rc. destruct (l + 1 =? 0) eqn:E1; [lia|].
+      rewrite !clamp_id by lia. f_equal. f_equal; lia.
+    + (* VPA *) rewrite run_vpa. assert (Hc1 : (c =? -1) = true) by lia; rewrite Hc1.
+      unfold vt_vpa, goto_rc. destruct (l + 1 =? 0) eqn:E1; [lia|].
+      rewrite !clamp_id by lia. f_equal. f_equal; lia.
+Qed.
+
+Lemma goto_ok : forall v l c, vt_ok v -> in_range (RGoto l c) v ->
+  effect_ok (RGoto l c) true (match xt_goto_abs l c with [] => true | _ => false end) v
+            (vt_run (xt_goto_abs l c) v) /\
+  vt_ok (vt_run (xt_goto_abs l c) v).
+Proof.
+  intros v l c Hok Hr. rewrite (goto_abs_run v l c Hok Hr).
+  pose proof (full_margins_of_ok v Hok) as Hm.
+  destruct (vt_ok_inv v Hok) as (HL & HC & _ & _ & _ & _ & Hawm & Hrow & Hcol).
+  unfold in_range, in_rangeb in Hr.
+  destruct ((l =? -1) && (c =? -1)) eqn:E.
+  - split; [|exact Hok]. unfold effect_ok. refine (conj _ (conj _ (conj _ _))).
+    + unfold frame_okb. rewrite Hm, margins_eqb_refl, modes_eqb_refl. lia.
+    + unfold effect_cursorb. rewrite E. apply andb_true_iff in E as [El Ec]. rewrite El, Ec.
+      destruct (pend v); lia.
+    + apply attrs_eqb_refl.
+    + intros y x _ _. unfold effect_cellb. apply cell_eqb_refl.
+  - split.
+    + unfold effect_ok. refine (conj _ (conj _ (conj _ _))).
+      * unfold frame_okb. vt_unfold. rewrite Hm, margins_eqb_refl, modes_eqb_refl. lia.
+      * unfold effect_cursorb. rewrite E. vt_unfold. destruct (l =? -1); destruct (c =? -1); lia.
+      * vt_unfold. apply attrs_eqb_refl.
+      * intros y x _ _. unfold effect_cellb. vt_unfold. apply cell_eqb_refl.
+    + apply vt_ok_intro; vt_unfold; try assumption; try lia.
+      * destruct (l =? -1); lia.
+      * destruct (c =? -1); lia.
 Qed.
